@@ -131,6 +131,17 @@ CHECKS = [
            'the inferred site must be recorded; the at-once guardrail must fire exactly for SharedPort on L2PTP. Node types x '
            '(plain, site unset, image, management ip, component) and port-mirror services get the same treatment.',
       note='For types without a site limit the declared-site agreement is unspecified; num_instances has no decidable case (all NO_LIMIT).'),
+ dict(property_id='C11', engine='E2-enum', level='exploration',
+      technique='model checking: exhaustive enumeration of slice descriptions x all permutations of node and service creation order, independent tally oracle',
+      text='Slice descriptions (1-3 nodes on two sites with pairwise distinct cpu/ram/disk and component mixes; all multisets of 0-2 '
+           'services per configuration, 3 on the two-site configuration (thorough: up to 4 everywhere) from {bridge with bandwidth, '
+           'FABNetv4Ext, FABNetv6Ext, port mirror of an in-slice port, port mirror of an outside port}, optional facility) are built '
+           'through the real API in EVERY order of node creation and of service creation, validated, and collected from the topology '
+           'and from its serialized model. Oracle: tally read from the raw stored graph (multiset equality for cpu/ram/disk/bw/'
+           'components/facilities, set equality for sites and external-service sites, mirror sites must name every out-of-slice '
+           'mirror), identical attribute map across all orders and both sources, PDP request structure, accounting counts.',
+      note='In-slice is defined by the service-port local_name label as the library documents it; in-slice mirror sites are only '
+           'constrained by order-independence.'),
 ]
 _claimed = {c['property_id'] for c in CHECKS}
 NOT_APPLICABLE = [dict(property_id=p, reason='check not built yet in this revision (work in progress; model checking applies, see DESIGN.md)')
